@@ -1,6 +1,7 @@
 // serves: C06 C14 C19
 // C06 / C14 / C19: the serialization layer (trait Serialize, its blanket impls, the impls of the raw / integer /
-// plain bit vectors and their support structures, the run-length vector, skip_option / absent_option).
+// plain bit vectors and their support structures, the run-length vector, the wavelet matrix and its core,
+// skip_option / absent_option).
 // Values are described to Coq by RECIPES (the generated data), never by their serialized form; the Coq side builds
 // the model value from the recipe and compares the bytes, sizes, consumed byte counts and outcomes.
 use crate::bvgen::*;
@@ -13,6 +14,8 @@ use simple_sds::ops::*;
 use simple_sds::raw_vector::{AccessRaw, PushRaw, RawVector, RawVectorWriter};
 use simple_sds::rl_vector::{RLBuilder, RLVector};
 use simple_sds::serialize::{self, Serialize};
+use simple_sds::wavelet_matrix::wm_core::WMCore;
+use simple_sds::wavelet_matrix::WaveletMatrix;
 use std::fmt::Write as FmtWrite;
 use std::io::{self, ErrorKind, Read, Write};
 
@@ -519,6 +522,108 @@ fn g_rl(rng: &mut Rng, nruns: usize, profile: u64, tail: usize) -> G<RLVector> {
     g
 }
 
+
+// ---------------------------------------------------------------- wavelet matrix and its core
+// Described to Coq by the value list; their Coq types live outside the closed universe `ty` (Check/SerWM.v: wty), so
+// they are emitted through the constructors CRoundW / CConcatW / CBadW / CTruncW / CSinkW / CStripW.
+
+fn is_w(it: &dyn Item) -> bool {
+    let t = it.ty();
+    t == "WCore" || t == "WMat"
+}
+
+fn wm_probe_values(vals: &[u64]) -> Vec<u64> {
+    let max = vals.iter().cloned().max().unwrap_or(0);
+    let mut v = vec![0u64, 1, max, max.wrapping_add(1), u64::MAX];
+    if !vals.is_empty() {
+        v.push(vals[0]);
+        v.push(vals[vals.len() / 2]);
+    }
+    v.sort();
+    v.dedup();
+    v
+}
+
+fn same_wm(a: &WaveletMatrix, b: &WaveletMatrix, values: &[u64]) -> bool {
+    let mut ok = a.len() == b.len() && a.width() == b.width();
+    ok &= a.iter().collect::<Vec<u64>>() == b.iter().collect::<Vec<u64>>();
+    let len = b.len();
+    for v in values.iter() {
+        ok &= a.contains(*v) == b.contains(*v);
+        for i in [0usize, 1, len / 2, len.saturating_sub(1), len, len + 1, usize::MAX] {
+            ok &= a.rank(i, *v) == b.rank(i, *v);
+            ok &= a.select(i, *v) == b.select(i, *v);
+            ok &= a.predecessor(i, *v).next() == b.predecessor(i, *v).next();
+            ok &= a.successor(i, *v).next() == b.successor(i, *v).next();
+        }
+    }
+    for i in [0usize, 1, len / 2, len.saturating_sub(1), len] {
+        ok &= a.inverse_select(i) == b.inverse_select(i);
+    }
+    ok
+}
+
+fn same_core(a: &WMCore, b: &WMCore, values: &[u64]) -> bool {
+    let mut ok = a.len() == b.len() && a.width() == b.width();
+    let len = b.len();
+    for i in 0..std::cmp::min(len + 1, 40) {
+        ok &= a.map_down(i) == b.map_down(i);
+    }
+    for v in values.iter() {
+        for i in [0usize, 1, len / 2, len.saturating_sub(1), len, usize::MAX] {
+            ok &= a.map_down_with(i, *v) == b.map_down_with(i, *v);
+            ok &= a.map_up_with(i, *v) == b.map_up_with(i, *v);
+        }
+    }
+    ok
+}
+
+fn g_wmcore(vals: &[u64]) -> G<WMCore> {
+    let core = WMCore::from(vals.to_vec());
+    let values = wm_probe_values(vals);
+    let mut g = plain(core, "WCore", nlist(vals));
+    g.answers = Box::new(move |a: &WMCore, b: &WMCore| same_core(a, b, &values));
+    g
+}
+
+fn g_wm(vals: &[u64]) -> G<WaveletMatrix> {
+    let wm = WaveletMatrix::from(vals.to_vec());
+    let values = wm_probe_values(vals);
+    let mut g = plain(wm, "WMat", nlist(vals));
+    g.answers = Box::new(move |a: &WaveletMatrix, b: &WaveletMatrix| same_wm(a, b, &values));
+    g
+}
+
+// value lists: empty, one item, all-zero, the documentation's vector, widths 1..4 (small enough for every
+// truncation point), a few longer / wider ones (word and rank-block boundaries in the levels, large alphabets)
+fn wm_value_lists(rng: &mut Rng, thorough: bool) -> Vec<Vec<u64>> {
+    let mut v: Vec<Vec<u64>> = vec![vec![], vec![0], vec![1], vec![0, 0, 0], vec![5], vec![1, 2, 1, 3], vec![2, 0, 3, 1, 2],
+        vec![1, 0, 3, 1, 1, 2, 4, 5, 1, 2, 1, 7, 0, 1], vec![7; 64], vec![0, 255], vec![9, 9, 12]];
+    for (len, w) in [(3usize, 1u64), (17, 1), (64, 1), (65, 2), (40, 3), (30, 4), (129, 2), (200, 3), (513, 1), (600, 5), (100, 8), (70, 10)] {
+        v.push((0..len).map(|_| rng.below(1u64 << w)).collect());
+    }
+    v.push(vec![4096, 0, 4096, 1, 2048]);
+    v.push((0..50).map(|_| *rng.pick(&[1u64, 16, 17, 1000])).collect());
+    if thorough {
+        for _ in 0..40 {
+            let len = rng.below(400) as usize;
+            let w = 1 + rng.below(9);
+            v.push((0..len).map(|_| rng.below(1u64 << w)).collect());
+        }
+        v.push((0..5000).map(|_| rng.below(4)).collect());
+    }
+    v
+}
+
+fn wm_items(rng: &mut Rng, thorough: bool) -> Vec<Box<dyn Item>> {
+    let mut v: Vec<Box<dyn Item>> = Vec::new();
+    for vals in wm_value_lists(rng, thorough) {
+        v.push(Box::new(g_wmcore(&vals)));
+        v.push(Box::new(g_wm(&vals)));
+    }
+    v
+}
+
 fn small_len(rng: &mut Rng, max: usize) -> usize {
     match rng.below(6) {
         0 => 0,
@@ -673,8 +778,13 @@ fn emit_round(out: &mut Out, rng: &mut Rng, it: &dyn Item, kind: &str) {
         ans &= matches!(f, Res::Ok(true));
         out.stat("c06.file_roundtrips");
     }
-    let term = format!("CRound {} {} {} {} {} {} {} {} {} {} {} {} {}", PATH, b(DBG), it.ty(), it.recipe(), nlist(&elems), blist8(&tail),
-        it.size_el(), it.size_by(), blist8(&extra), reader.pos, b(eq), b(ans), opt(&it.sbp(), |x| nu(*x)));
+    let term = if is_w(it) {
+        format!("CRoundW {} {} {} {} {} {} {} {} {} {} {} {}", PATH, b(DBG), it.ty(), it.recipe(), nlist(&elems), blist8(&tail),
+            it.size_el(), it.size_by(), blist8(&extra), reader.pos, b(eq), b(ans))
+    } else {
+        format!("CRound {} {} {} {} {} {} {} {} {} {} {} {} {}", PATH, b(DBG), it.ty(), it.recipe(), nlist(&elems), blist8(&tail),
+            it.size_el(), it.size_by(), blist8(&extra), reader.pos, b(eq), b(ans), opt(&it.sbp(), |x| nu(*x)))
+    };
     out.stat(&format!("c06.round.{}", it.ty().replace(|c: char| !c.is_alphanumeric(), "")));
     out.case(kind, term, format!("{{\"ty\":{:?},\"size\":{},\"consumed\":{},\"eq\":{}}}", it.ty(), bytes.len(), reader.pos, eq), bytes.len() > 8);
 }
@@ -706,7 +816,8 @@ fn emit_concat(out: &mut Out, rng: &mut Rng, items: &[Box<dyn Item>]) {
         let _ = write!(its, "({}, {})", it.ty(), it.recipe());
     }
     its.push(']');
-    let term = format!("CConcat {} {} {} {} {} {}", PATH, b(DBG), its, nlist(&elems), nlist(&consumed), b(all));
+    let w = items.iter().all(|it| is_w(it.as_ref()));
+    let term = format!("{} {} {} {} {} {} {}", if w { "CConcatW" } else { "CConcat" }, PATH, b(DBG), its, nlist(&elems), nlist(&consumed), b(all));
     out.stat(&format!("c06.concat.{}", items.len()));
     out.case("concat", term, format!("{{\"n\":{},\"bytes\":{},\"consumed\":{:?}}}", items.len(), bytes.len(), consumed), true);
 }
@@ -721,6 +832,90 @@ fn run_bad<T: Serialize>(out: &mut Out, ty: &str, what: &str, elems: &[u64], tai
     let term = format!("CBad {} {} {} {} {} {} {}", PATH, b(DBG), ty, nlist(elems), blist8(tail), oc, reader.pos);
     out.stat(&format!("c06.bad.outcome.{}", oc));
     out.case("bad", term, format!("{{\"ty\":{:?},\"what\":{:?},\"elems\":{:?},\"outcome\":{},\"consumed\":{}}}", ty, what, &elems[..std::cmp::min(elems.len(), 24)], oc, reader.pos), true);
+}
+
+fn run_bad_w<T: Serialize>(out: &mut Out, ty: &str, what: &str, elems: &[u64], tail: &[u8]) {
+    let mut bytes = from_elems(elems);
+    bytes.extend_from_slice(tail);
+    let mut reader = CountingReader::new(&bytes, 0);
+    let r = catch(|| T::load(&mut reader));
+    let oc = outcome(&r);
+    drop(r);
+    let term = format!("CBadW {} {} {} {} {} {} {}", PATH, b(DBG), ty, nlist(elems), blist8(tail), oc, reader.pos);
+    out.stat(&format!("c06.badw.outcome.{}", oc));
+    out.case("bad", term, format!("{{\"ty\":{:?},\"what\":{:?},\"elems\":{:?},\"outcome\":{},\"consumed\":{}}}", ty, what, &elems[..std::cmp::min(elems.len(), 24)], oc, reader.pos), true);
+}
+
+fn serialize_elems_of<T: Serialize>(x: &T) -> Vec<u64> {
+    let mut buf: Vec<u8> = Vec::new();
+    x.serialize(&mut buf).unwrap();
+    to_elems(&buf).0
+}
+
+// malformed WMCore / WaveletMatrix streams: the width check (before anything is sized by it), the common level
+// length, data.len() against len, fewer / more levels than announced, a damaged offsets vector
+fn malformed_wm(out: &mut Out, rng: &mut Rng) {
+    let a: Vec<u64> = (0..5).map(|_| rng.below(2)).collect(); // width 1, length 5
+    let b6: Vec<u64> = (0..6).map(|_| rng.below(2)).collect(); // width 1, length 6
+    let c: Vec<u64> = vec![2, 0, 3, 1, 2]; // width 2, length 5
+    let core_a = serialize_elems_of(&WMCore::from(a.clone()));
+    let core_b = serialize_elems_of(&WMCore::from(b6.clone()));
+    let core_c = serialize_elems_of(&WMCore::from(c.clone()));
+    let level_a = core_a[1..].to_vec();
+    let level_b = core_b[1..].to_vec();
+    for w in [0u64, 65, 66, 1 << 32, 1 << 63, u64::MAX - 1, u64::MAX] {
+        let mut e = vec![w];
+        e.extend_from_slice(&level_a);
+        run_bad_w::<WMCore>(out, "WCore", "width out of range", &e, &[]);
+        run_bad_w::<WMCore>(out, "WCore", "width out of range, nothing behind it", &[w], &[]);
+    }
+    let cat = |w: u64, parts: &[&Vec<u64>]| -> Vec<u64> {
+        let mut e = vec![w];
+        for p in parts {
+            e.extend_from_slice(p);
+        }
+        e
+    };
+    run_bad_w::<WMCore>(out, "WCore", "two levels of different lengths", &cat(2, &[&level_a, &level_b]), &[]);
+    run_bad_w::<WMCore>(out, "WCore", "three levels, the last of a different length", &cat(3, &[&level_a, &level_a, &level_b]), &[]);
+    run_bad_w::<WMCore>(out, "WCore", "two equal levels (valid)", &cat(2, &[&level_a, &level_a]), &[1, 2, 3]);
+    run_bad_w::<WMCore>(out, "WCore", "width 3 but two levels", &cat(3, &[&level_a, &level_a]), &[]);
+    run_bad_w::<WMCore>(out, "WCore", "width 1 followed by a second level", &cat(1, &[&level_a, &level_a]), &[]);
+    run_bad_w::<WMCore>(out, "WCore", "width 64, one level", &cat(64, &[&level_a]), &[]);
+    run_bad_w::<WMCore>(out, "WCore", "empty stream", &[], &[]);
+    run_bad_w::<WMCore>(out, "WCore", "valid core, stray bytes", &core_c, &[9, 9, 9]);
+    let wm_c = serialize_elems_of(&WaveletMatrix::from(c.clone()));
+    for l in [0u64, 4, 6, 1 << 63, u64::MAX] {
+        let mut e = wm_c.clone();
+        e[0] = l;
+        run_bad_w::<WaveletMatrix>(out, "WMat", "len differs from the core's length", &e, &[]);
+    }
+    run_bad_w::<WaveletMatrix>(out, "WMat", "valid matrix, stray bytes", &wm_c, &[7]);
+    let mut e = wm_c.clone();
+    e[1] = 0;
+    run_bad_w::<WaveletMatrix>(out, "WMat", "core width 0", &e, &[]);
+    let mut e = wm_c.clone();
+    e[1] = 3;
+    run_bad_w::<WaveletMatrix>(out, "WMat", "core width larger than the levels present", &e, &[]);
+    // the offsets vector: [.. len, width, data.len, words, data..]; break len * width == data.len
+    let n = wm_c.len();
+    let first_len = 4; // max + 1 offsets
+    let first_start = n - 5; // 4 header elements + 1 data word
+    if wm_c[first_start] == first_len {
+        let mut e = wm_c.clone();
+        e[first_start] = first_len + 1;
+        run_bad_w::<WaveletMatrix>(out, "WMat", "first: len * width != data.len", &e, &[]);
+        let mut e = wm_c.clone();
+        e[first_start + 3] = 2;
+        run_bad_w::<WaveletMatrix>(out, "WMat", "first: word count does not match", &e, &[]);
+        run_bad_w::<WaveletMatrix>(out, "WMat", "first missing", &wm_c[..first_start].to_vec(), &[]);
+        run_bad_w::<WaveletMatrix>(out, "WMat", "first cut after its header", &wm_c[..first_start + 4].to_vec(), &[]);
+    } else {
+        out.stat("c06.badw.first_not_located");
+    }
+    let mut e = cat(5, &[]);
+    e.extend_from_slice(&cat(2, &[&level_a, &level_b]));
+    run_bad_w::<WaveletMatrix>(out, "WMat", "core with levels of different lengths", &e, &[]);
 }
 
 fn bytes_stream(content: &[u8]) -> Vec<u64> {
@@ -937,6 +1132,21 @@ fn run_c06(rng: &mut Rng, out: &mut Out, thorough: bool) {
         emit_concat(out, rng, &items);
     }
     malformed(out, rng, thorough);
+    // wavelet matrices and cores
+    for it in wm_items(rng, thorough) {
+        emit_round(out, rng, it.as_ref(), "systematic");
+    }
+    for _ in 0..(if thorough { 40 } else { 8 }) {
+        let n = 1 + rng.below(4) as usize;
+        let items: Vec<Box<dyn Item>> = (0..n).map(|_| {
+            let len = rng.below(40) as usize;
+            let w = 1 + rng.below(4);
+            let vals: Vec<u64> = (0..len).map(|_| rng.below(1u64 << w)).collect();
+            if rng.below(2) == 0 { Box::new(g_wmcore(&vals)) as Box<dyn Item> } else { Box::new(g_wm(&vals)) as Box<dyn Item> }
+        }).collect();
+        emit_concat(out, rng, &items);
+    }
+    malformed_wm(out, rng);
 }
 
 // ---------------------------------------------------------------- C14
@@ -952,7 +1162,7 @@ fn emit_trunc(out: &mut Out, it: &dyn Item) {
     }
     out.stat_n("c14.loads", bytes.len() as u64);
     out.stat_n("c14.loads.not_err", outcomes.iter().filter(|c| **c == 0 || **c >= 10).count() as u64);
-    let term = format!("CTrunc {} {} {} {} {} {}", PATH, b(DBG), it.ty(), it.recipe(), nlist(&elems), rle(&outcomes));
+    let term = format!("{} {} {} {} {} {} {}", if is_w(it) { "CTruncW" } else { "CTrunc" }, PATH, b(DBG), it.ty(), it.recipe(), nlist(&elems), rle(&outcomes));
     out.case("trunc", term, format!("{{\"ty\":{:?},\"size\":{},\"outcomes\":{:?}}}", it.ty(), bytes.len(), rle(&outcomes)), bytes.len() > 8);
     if it.is_option() {
         let mut outcomes: Vec<u64> = Vec::with_capacity(bytes.len());
@@ -989,7 +1199,7 @@ fn emit_sink(out: &mut Out, it: &dyn Item, kind: u64) {
         }
     }
     out.stat_n("c14.budgets", bytes.len() as u64);
-    let term = format!("CSink {} {} {} {} {} {} {} {}", PATH, b(DBG), it.ty(), it.recipe(), nlist(&elems), kind, rle(&outcomes), b(prefix_ok));
+    let term = format!("{} {} {} {} {} {} {} {} {}", if is_w(it) { "CSinkW" } else { "CSink" }, PATH, b(DBG), it.ty(), it.recipe(), nlist(&elems), kind, rle(&outcomes), b(prefix_ok));
     out.case("sink", term, format!("{{\"ty\":{:?},\"size\":{},\"kind\":{},\"outcomes\":{:?}}}", it.ty(), bytes.len(), kind, rle(&outcomes)), bytes.len() > 8);
 }
 
@@ -998,6 +1208,10 @@ fn run_c14(rng: &mut Rng, out: &mut Out, thorough: bool) {
     for _ in 0..(if thorough { 600 } else { 120 }) {
         let max = *rng.pick(&[64usize, 300, 1000, 2500]);
         items.push(random_item(rng, max));
+    }
+    // wavelet matrices and cores: every truncation point of the small instances
+    for it in wm_items(rng, false) {
+        items.push(it);
     }
     let limit = if thorough { 3000 } else { 1536 };
     for it in items.iter() {
@@ -1477,6 +1691,65 @@ fn emit_skip(out: &mut Out, elems: &[u64], what: &str) {
     out.case("skip", term, format!("{{\"what\":{:?},\"declared\":{},\"outcome\":{},\"pos\":{},\"next\":{}}}", what, elems[0], oc, pos, next), elems[0] > 0);
 }
 
+// the bit columns of the levels of WMCore::from(vals): bit (width - 1 - level) of every item, then the stable partition
+fn wm_columns(vals: &[u64], width: usize) -> Vec<Vec<bool>> {
+    let mut src = vals.to_vec();
+    let mut cols = Vec::new();
+    for level in 0..width {
+        let bit = 1u64 << (width - 1 - level);
+        cols.push(src.iter().map(|v| v & bit != 0).collect::<Vec<bool>>());
+        let zeros: Vec<u64> = src.iter().cloned().filter(|v| v & bit == 0).collect();
+        let ones: Vec<u64> = src.iter().cloned().filter(|v| v & bit != 0).collect();
+        src = zeros;
+        src.extend(ones);
+    }
+    cols
+}
+
+// a WMCore / WaveletMatrix file written by hand from the format's rules with every level carrying only the supports
+// of `subset` (0: none), loaded by the crate and compared with the natively built structure
+fn emit_strip(out: &mut Out, rng: &mut Rng, vals: &[u64], matrix: bool, subset: u64) {
+    let core = WMCore::from(vals.to_vec());
+    let wm = WaveletMatrix::from(vals.to_vec());
+    let width = core.width();
+    let mut elems: Vec<u64> = Vec::new();
+    if matrix {
+        elems.push(vals.len() as u64);
+    }
+    elems.push(width as u64);
+    for col in wm_columns(vals, width).iter() {
+        let (raw, _) = raw_from_bits(col);
+        let mut bv = BitVector::from(raw);
+        enable_subset(&mut bv, subset);
+        elems.extend_from_slice(&serialize_elems(&bv));
+    }
+    if matrix {
+        let native = serialize_elems_of(&wm);
+        let first_start = 1 + core.size_in_elements();
+        elems.extend_from_slice(&native[first_start..]);
+    }
+    let extra: Vec<u8> = (0..rng.below(10)).map(|_| rng.below(256) as u8).collect();
+    let mut stream = from_elems(&elems);
+    stream.extend_from_slice(&extra);
+    let mut reader = CountingReader::new(&stream, *rng.pick(&[0usize, 0, 3, 8]));
+    let values = wm_probe_values(vals);
+    let (eq, ans) = if matrix {
+        match catch(|| WaveletMatrix::load(&mut reader)) {
+            Res::Ok(Ok(x)) => (x == wm, same_wm(&x, &wm, &values)),
+            _ => (false, false),
+        }
+    } else {
+        match catch(|| WMCore::load(&mut reader)) {
+            Res::Ok(Ok(x)) => (x == core, same_core(&x, &core, &values)),
+            _ => (false, false),
+        }
+    };
+    let term = format!("CStripW {} {} {} {} {} {} {} {} {} {}", PATH, b(DBG), if matrix { "WMat" } else { "WCore" }, nlist(vals), subset,
+        nlist(&elems), blist8(&extra), reader.pos, b(eq), b(ans));
+    out.stat(&format!("c19.strip.{}", subset));
+    out.case("strip", term, format!("{{\"values\":{:?},\"matrix\":{},\"subset\":{},\"eq\":{},\"answers\":{}}}", &vals[..std::cmp::min(vals.len(), 40)], matrix, subset, eq, ans), !vals.is_empty());
+}
+
 fn run_c19(rng: &mut Rng, out: &mut Out, thorough: bool) {
     let lens: Vec<usize> = if thorough {
         vec![0, 1, 2, 63, 64, 65, 200, 511, 512, 513, 1024, 2000, 4095, 4096, 4097, 8192, 12000]
@@ -1547,6 +1820,13 @@ fn run_c19(rng: &mut Rng, out: &mut Out, thorough: bool) {
             elems.push(rng.next());
         }
         emit_skip(out, &elems, "opaque");
+    }
+    // wavelet matrices / cores from files whose levels carry no (or only some) support structures
+    for vals in wm_value_lists(rng, thorough) {
+        for subset in [0u64, 0, rng.below(8), 7] {
+            let matrix = rng.below(3) != 0;
+            emit_strip(out, rng, &vals, matrix, subset);
+        }
     }
     // absent_option writes exactly one zero element
     let mut buf: Vec<u8> = Vec::new();
